@@ -88,6 +88,10 @@ def generate(rng, i, tier):
         if rng.random() < 0.15:
             # a caller that starts a generator run on this instance and walks away after a few lines
             run["abandoned_before"] = {"method": rng.choice(["next_paths", "next_paths_collect", "next_by_line"]), "after": rng.randint(1, 3), "tick_s": rng.choice([0, 1])}
+        if rng.random() < 0.12:
+            # a manager call on this instance failed just before (a directory that is not there, a torn json file):
+            # whatever the instance keeps of that must not leak into the archive of the run
+            run["failed_call_before"] = rng.choice(["paths_from_dir", "paths_from_json", "files_from_json", "set_paths_nonlist"])
         runs.append(run)
     dialect = [",", '"'] if rng.random() < 0.8 else rng.choice([[";", '"'], ["|", '"'], ["\t", '"'], [",", "'"]])
     return {
@@ -121,6 +125,10 @@ def reductions(sc):
     if sc["dialect"] != [",", '"']:
         yield with_(sc, dialect=[",", '"'])
     for j, r in enumerate(sc["runs"]):
+        if r.get("failed_call_before"):
+            c = with_(sc)
+            del c["runs"][j]["failed_call_before"]
+            yield c
         if r.get("abandoned_before"):
             c = with_(sc)
             del c["runs"][j]["abandoned_before"]
@@ -294,9 +302,28 @@ def execute(sc):
                         raise
                 if ab["tick_s"]:
                     seams.SimClock.advance(seconds=ab["tick_s"])
+            fc = run.get("failed_call_before")
+            if fc:
+                try:
+                    with ops.quiet():
+                        if fc == "paths_from_dir":
+                            cs.paths_manager.add_named_paths_from_dir(directory="no/such/dir")
+                        elif fc == "paths_from_json":
+                            cs.paths_manager.add_named_paths_from_json(file_path="no/such/file.json")
+                        elif fc == "files_from_json":
+                            with open("src/torn.json", "w", encoding="utf-8") as f:
+                                f.write('{"f": "src/f.c')
+                            cs.file_manager.set_named_files_from_json("src/torn.json")
+                        else:
+                            cs.paths_manager.set_named_paths("not a dict")
+                except Exception as e:  # noqa: BLE001
+                    if not ops.in_repo(e) and not isinstance(e, (OSError, TypeError, AttributeError, ValueError)):
+                        raise
+                out.fault("failed_manager_call")
+                out.probe("run after a failed manager call on the same instance")
             TEE.clear()
             meth = run["method"]
-            where = f"run {ri} ({meth}, {run['inst']} instance{', after an abandoned ' + ab['method'] if ab else ''})"
+            where = f"run {ri} ({meth}, {run['inst']} instance{', after an abandoned ' + ab['method'] if ab else ''}{', after a failed ' + fc if fc else ''})"
             try:
                 lines = ops.run_group(cs, meth, "g")
             except Exception as e:  # noqa: BLE001
@@ -327,6 +354,7 @@ def execute(sc):
             if out.violations:
                 break
         out.probe("run after an abandoned generator run on the same instance", False)
+        out.probe("run after a failed manager call on the same instance", False)
         out.probe("member using a cross-path signal (fail_all/stop_all/skip_all/advance_all)", any("_all(" in c for m in sc["members"] for c in m["comps"]))
         out.probe("member that edits the line in place (append/replace)", any(c.startswith(("append(", "replace(")) for m in sc["members"] for c in m["comps"]))
         out.probe("archived member file larger than 64 KiB", any(len(c) > 65536 for r in sc["rows"] for c in r))
